@@ -128,6 +128,29 @@ CLAIMS = {
              "receivers; two named fall-through suppressions (Storage()/End()).",
         technique="static analysis: tagged-union typestate (disjunctive dataflow) + record-layout coverage",
         ref="DESIGN.md section 4 C12, section 3.1 E-TAG"),
+    "C13": dict(
+        text="Static analysis, partial: protocol and sibling checks over the uninstantiated HashTable/HArray/HList and "
+             "StringUtils::Hash: hash never 0; Hash/Next written only by the table classes; every insert() reached with "
+             "room (dominating capacity step, or a merge pre-sized from the raw slot counts with one insert per source "
+             "slot); link/item pointers from find() not used after a possible reallocation (BORROW dataflow); "
+             "remove()'s unlink/tombstone/clear; rehash after sort/resize/copy numbering every slot; bucket formula "
+             "siblings and power-of-two capacity; Rename's append-before-unlink order under its two guards. Matching "
+             "is by data flow and field names, not by local variable names. Not decided: map semantics over histories.",
+        note=TRUST + "Memory::AlignSize is assumed to return a power of two >= its argument.",
+        technique="static analysis: protocol/ordering checks on the exported AST/CFG, sibling comparison, borrow dataflow",
+        ref="DESIGN.md section 4 C13"),
+    "C15": dict(
+        text="Static analysis, partial: the prefix-exhausted tail of IsLess/IsGreater must be asymmetric in the two "
+             "lengths (decided by swapping the parameters in the exported expression and comparing normal forms) and "
+             "the two functions are mirror images; the relational members of String/StringView delegate with the "
+             "operand order and orEqual flag of their operator; Value's comparison operators use their own operator "
+             "in every same-kind arm, order kinds by rank for < <= > >= and fall back symmetrically for ==; "
+             "Memory::Sort permutes only through Swap, compares in the requested direction, covers both partitions "
+             "and recurses only into the partition proven smaller (logarithmic depth); sorted tables are rehashed. "
+             "Not decided: order axioms for all values, permutation result for all inputs.",
+        note=TRUST,
+        technique="static analysis: symmetry/normal-form argument on return expressions, sibling comparison, recursion-shape check",
+        ref="DESIGN.md section 4 C15"),
     "C20": dict(
         text="Static analysis, partial but exhaustive over code points: every CFG path of the three "
              "UnicodeToUTF::ToUTF specialisations is summarised in a bit-level abstract domain (interval of the code "
